@@ -41,6 +41,15 @@ def features(ev, prog=None):
         f[f'x{i + 1}len'] = 'empty' if not x['v'] else 'nonempty'
         f[f'x{i + 1}self'] = (x['k'] == 'obj' and x['id'] == ev.get('t'))
     f['nxs'] = len(xs)
+    if ev['op'] in ('packstruct', 'unpackstruct') and ev.get('sa'):
+        import struct
+        codes = ''.join(ev['sa'][1:])
+        try:
+            f['native_layout_differs'] = (ev['sa'][0] == '@' and
+                                          (struct.calcsize('@' + codes) != struct.calcsize('=' + codes)
+                                           or any(struct.calcsize('@' + c) != struct.calcsize('=' + c) for c in codes)))
+        except struct.error:
+            f['native_layout_differs'] = False
     return f
 
 
@@ -211,3 +220,31 @@ def replay(path):
         return 1
     print('ACCEPTED: every event conforms to the specification')
     return 0
+
+
+def add_witnessed(check, lines):
+    """Every listed known finding of this property is reported when its witness program still fails on the
+    current tree, whether or not the run's own inputs happened to hit it."""
+    seen_ids = {l.split(':', 1)[0] for l in lines}
+    todo = [e for e in load_known() if check.pid in e.get('properties', []) and e['id'] not in seen_ids
+            and e.get('witness')]
+    if not todo:
+        return lines
+    progs = []
+    for i, e in enumerate(todo):
+        progs.append(dict(e['witness'], tid=900000 + i))
+    evlists = rerun(progs)
+    path = os.path.join(check.wd, 'witness.ndjson')
+    with open(path, 'w') as f:
+        for evs in evlists:
+            for ev in evs:
+                f.write(json.dumps(ev, separators=(',', ':')) + '\n')
+    v = tlc.validate_shards([path], check.wd, par=1)
+    failing = {t for t, _, _ in v['rejects']}
+    out = list(lines)
+    for i, e in enumerate(todo):
+        if 900000 + i in failing:
+            out.append(f"{e['id']}: {e['what']} [witness program still rejected]")
+        else:
+            check.notes.append(f"known finding {e['id']}: witness no longer fails on this tree")
+    return out
